@@ -132,7 +132,13 @@ type Func struct {
 	ReKey    *Key     `json:"re_key,omitempty"`    // with Reenter: the nested request is for this key instead ...
 	ReScope  int      `json:"re_scope,omitempty"`  // ... issued on this scope
 	ReCB     bool     `json:"re_cb,omitempty"`     // with Reenter and Callback: the nested request is issued from the callback, not from the body
-	Variadic bool     `json:"variadic,omitempty"`
+	// ThenProvide > 0 (invoked functions): the body registers constructor
+	// Funcs[ThenProvide-1] on scope ThenScope before it returns (lazy
+	// registration from inside an Invoke). Equivalent to a Provide issued right
+	// after the Invoke, and checked as such.
+	ThenProvide int  `json:"then_provide,omitempty"`
+	ThenScope   int  `json:"then_scope,omitempty"`
+	Variadic    bool `json:"variadic,omitempty"`
 
 	// Provide options.
 	OptName    string `json:"opt_name,omitempty"`
@@ -311,6 +317,9 @@ func (f *Func) String() string {
 		if f.ReCB {
 			b.WriteString("(in callback)")
 		}
+	}
+	if f.ThenProvide > 0 {
+		fmt.Fprintf(&b, " then-Provide(f%d to s%d)", f.ThenProvide-1, f.ThenScope)
 	}
 	if f.OptName != "" {
 		fmt.Fprintf(&b, " Name(%s)", f.OptName)
